@@ -176,6 +176,16 @@ def check_replace(nd: t.Any, v0: t.Any, ctx: Ctx) -> None:
                 return
 
 
+def _inserting() -> t.Any:
+    # mapping-shaped targets (struct literals, Dict / Mapping, dataclasses) first, then the whole grammar
+    sc = tg.type_specs(2)
+    keys = st.sampled_from(['a', 'b', 'c', 'x', 'y'])
+    structs = st.lists(st.tuples(keys, sc), min_size=1, max_size=3, unique_by=lambda kv: kv[0]).map(lambda kv: ('struct', tuple(kv)))
+    shaped = st.one_of(structs, structs.map(lambda s: ('seq', 'List', s)), structs.map(lambda s: ('map', 'Dict', ('s', 'str'), s)),
+                       cg.class_specs(st.one_of(sc, structs), max_fields=3))
+    return gen.inserting_cases(st.one_of(shaped, shaped, gen.all_type_specs(4)))
+
+
 def _tagged() -> t.Any:
     from .c12 import tagged_cases
     return tagged_cases()
@@ -187,5 +197,6 @@ def suites(tier: str) -> t.List[Suite]:
     return [
         Suite('nomutate', check, strategy=lambda: gen.conv_cases(gen.all_type_specs(leaves)), examples=8000 if big else 600,
               budget_s=480 if big else 40, render=gen.render_case),
+        Suite('inserting-maps', check, strategy=_inserting, examples=4000 if big else 300, budget_s=200 if big else 20, render=gen.render_case),
         Suite('tagged', check, strategy=_tagged, examples=3000 if big else 250, budget_s=240 if big else 25, render=gen.render_case),
     ]
